@@ -394,6 +394,16 @@ def r4_id_address(r, facts):
                         else:
                             x = x[1]
             okn = okb and num[0] == 'call' and num[1].endswith('offset_from') and num[2][0][0] == 'arg' and num[2][0][1] == 2 and fam.last_field(num[2][1]) == 'bufs_addr'
+            if okb and not okn:
+                # the same distance as a difference of the two addresses: ptr.addr() - bufs_addr.addr()
+                d = num
+                while d[0] == 'cast' or (d[0] == 'proj' and d[2] == ('.0',) and d[1][0] == 'bin'):
+                    d = d[4] if d[0] == 'cast' else d[1]
+                if d[0] == 'bin' and d[1].startswith('Sub') or (d[0] == 'call' and d[1].endswith('wrapping_sub') and len(d[2]) == 2):
+                    lhs, rhs = (d[2], d[3]) if d[0] == 'bin' else (d[2][0], d[2][1])
+                    lhs, rhs = strip_casts(lhs), strip_casts(rhs)
+                    okn = (lhs[0] == 'call' and lhs[1].endswith('::addr') and strip_casts(lhs[2][0])[0] == 'arg' and strip_casts(lhs[2][0])[1] == 2
+                           and rhs[0] == 'call' and rhs[1].endswith('::addr') and fam.last_field(strip_casts(rhs[2][0])) == 'bufs_addr')
             okr = oka and okl and okn
             r.inst('release re-offers addr=%s len=%s bid=%s' % (fl['addr'], ln, fl['bid']), g.where(loc))
             r.require(oka, 'release/addr', 're-offered address is not the released pointer', g.where(loc))
